@@ -34,6 +34,8 @@ THEOREMS = [
     'Pyiga.Props.C07.translate_bspline_model', 'Pyiga.Props.C07.scale_bspline_model',
     'Pyiga.Props.C07.getitem_bspline_model', 'Pyiga.Props.C07.tensor_product_model',
     'Pyiga.Props.C07.as_nurbs_model', 'Pyiga.Props.C07.nurbs_routes_agree', 'Pyiga.Props.C07.boundary_jacobian_columns', 'Pyiga.Props.C07.outer_model', 'Pyiga.Props.C07.boundary_model', 'Pyiga.Props.C07.translate_nurbs_model',
+    'Pyiga.Props.C07.apply_matrix_model', 'Pyiga.Props.C07.scale_nurbs_model',
+    'Pyiga.Props.C07.copy_boundary_pinned_lose_scalar', 'Pyiga.Props.C07.boundary_pinned_curve_asserts',
 ]
 MODULES = ['Pyiga.Model.Jet', 'Pyiga.Model.Geometry', 'Pyiga.Proofs.Jet', 'Pyiga.Proofs.Geometry', 'Pyiga.Proofs.GeoLists', 'Pyiga.Proofs.Arcs', 'Pyiga.Props.C07']
 
@@ -237,7 +239,7 @@ def _oracle_routes(f, pts, grid):
             return 'grid_eval node %s (point %s) = %s differs from the definition %s' % (g, x, np.asarray(GV[g]).tolist(), O.value(x).tolist())
         if not close(GJ[g], O.jacobian(x), sc):
             return 'grid_jacobian node %s (point %s) differs from the derivative of the map' % (g, x)
-        if GH is not None and not close(GH[g], O.hessian(x), sc):
+        if GH is not None and not close(np.asarray(GH[g]).ravel(), O.hessian(x).ravel(), sc):
             return 'grid_hessian node %s (point %s) = %s differs from the second derivatives %s (packed xx,xy,..)' % (
                 g, x, np.asarray(GH[g]).tolist(), O.hessian(x).tolist())
     return None
@@ -503,8 +505,6 @@ def run(ctx):
                 (lambda x=x: np.asarray(f(*x))), ('call', f, x))
         # grids (zyx order)
         lens = [int(rng.integers(1, 4)) for _ in range(n)]
-        if (not nb) and f.coeffs.shape[n:] == (1,):
-            lens[0] = max(lens[0], 2)
         grid = tuple(np.array(rand_coord(rng, f.kvs[i], lens[i])) for i in range(n))
         add('geval %s %s' % (fd, info_table(f.kvs, grid, 0)), (lambda: f.grid_eval(grid)), ('geval', f, grid))
         add('gjac %s %s' % (fd, info_table(f.kvs, grid, 1)), (lambda: f.grid_jacobian(grid)), ('gjac', f, grid))
@@ -593,9 +593,6 @@ def run(ctx):
         d1, d2 = fmt_func(g1), fmt_func(g2)
         for name, tokn, fn in (('outer_sum', 'osum', geometry.outer_sum), ('outer_product', 'oprod', geometry.outer_product),
                                ('tensor_product', 'tprod', geometry.tensor_product)):
-            if tokn != 'tprod' and scalar_vector_bsp(g1, g2):
-                ctx.count('skipped: outer op of scalar and vector BSplineFunc (known finding outer-scalar-vector)')
-                continue
             add('%s %s %s' % (tokn, d1, d2), monitored(name, [g1, g2], (lambda fn=fn: fn(g1, g2))), ('op:' + name, g1, g2))
 
     for f in funcs:
@@ -689,6 +686,7 @@ def run(ctx):
     # ---- defects of the pinned tree that the model reproduces as coded: the property itself fails there
     known_probes(ctx)
     probe_copy_support(ctx)
+    open_probes(ctx)
 
     # ---- monitor: no operation altered an argument object
     ctx.obligation('monitor: byte snapshots of all argument objects unchanged over %d operations' % ctx.counters.get('monitored operations', 0),
@@ -701,17 +699,9 @@ def run(ctx):
     lap('oracle cross-checks')
 
 
-def scalar_vector_bsp(g1, g2):
-    """the operand class of known finding `outer-scalar-vector` (reported by known_probes)"""
-    if is_nurbs(g1) or is_nurbs(g2):
-        return False
-    v1 = g1.coeffs.shape[len(g1.kvs):]; v2 = g2.coeffs.shape[len(g2.kvs):]
-    return (len(v1) == 0) != (len(v2) == 0)
-
-
 def known_probes(ctx):
-    """defects of the pinned tree found by this check; each is reported under its own key (listed in
-    known_findings.d/C07.json) with the concrete failing input, and is re-probed on every run"""
+    """defects found by this check (all repaired in /repo, `status: fixed` in known_findings.d/C07.json): each is
+    re-probed on every run with its concrete input and reported as a VIOLATION under its key if it ever returns"""
     from pyiga import bspline, geometry
     kv = bspline.make_knots(2, 0.0, 1.0, 2); kv1 = bspline.make_knots(1, 0.0, 1.0, 3)
     # 1. Hessian of a (1,)-vector B-spline function
@@ -776,6 +766,50 @@ def probe_copy_support(ctx):
         if got != supp:
             ctx.violation('copy-drops-support', '%s with support restricted to %s: copy().support = %s (the copy is defined on the full domain again)'
                           % (what, supp, got), {'construct': 'g = %s; g.support = %s; g.copy().support' % (what, supp), 'got': got}, True)
+
+
+def open_probes(ctx):
+    """defects found by this check that are still present in /repo (status open in known_findings.d/C07.json)"""
+    from pyiga import geometry, bspline
+    box = ((0.25, 0.5), (0.5, 1.0))
+    norm = lambda supp: tuple(tuple(float(t) for t in s) for s in supp)
+    # (a) restricting the support of a ComposedFunction alters the inner function object passed by the caller
+    geo1 = geometry.unit_square()
+    before = (norm(geo1.support), type(geo1.boundary('left')).__name__, snapshot([geo1]))
+    comp = geometry.ComposedFunction(geometry.quarter_annulus(), geo1)
+    comp.support = box
+    after = (norm(geo1.support), type(geo1.boundary('left')).__name__, snapshot([geo1]))
+    if norm(comp.support) != box:
+        ctx.violation('composed-support-setter', 'ComposedFunction.support reads %s after setting %s' % (comp.support, box), {}, True)
+    if after != before:
+        ctx.violation('composed-support-writes-through', 'ComposedFunction(geo2, geo1).support = box alters the existing object geo1: geo1.support %s -> %s, '
+                      "type of geo1.boundary('left') %s -> %s" % (before[0], after[0], before[1], after[1]),
+                      {'construct': 'geo1 = unit_square(); c = ComposedFunction(quarter_annulus(), geo1); c.support = %s; geo1.support' % (box,)}, True)
+    # (b) translate / scale of a scalar-valued NURBS are (1,)-vector-valued
+    kv = bspline.make_knots(2, 0.0, 1.0, 2)
+    nf = geometry.NurbsFunc((kv, kv), np.arange(16.0).reshape(4, 4), np.ones((4, 4)))
+    for what, h in (('translate(1.0)', nf.translate(1.0)), ('scale(2.0)', nf.scale(2.0))):
+        if h.output_shape() != nf.output_shape():
+            ctx.violation('nurbs-translate-scale-not-scalar', 'NurbsFunc.%s of a scalar-valued NURBS function is (1,)-vector-valued (output_shape %s instead of %s; '
+                          'BSplineFunc.%s keeps a scalar function scalar)' % (what, h.output_shape(), nf.output_shape(), what.split('(')[0]),
+                          {'construct': 'NurbsFunc((kv,kv), arange(16.).reshape(4,4), ones((4,4))).' + what}, True)
+    # (c) functions derived from a support-restricted function are defined on the full domain again
+    for mk, name in ((geometry.unit_square, 'unit_square()'), (geometry.quarter_annulus, 'quarter_annulus()')):
+        g = mk()
+        g.support = box
+        bb = g.bounding_box(grid=4)
+        derived = [('translate((1,0))', lambda: g.translate((1.0, 0.0))), ('scale(2.0)', lambda: g.scale(2.0)), ('rotate_2d(0.5)', lambda: g.rotate_2d(0.5)),
+                   ('as_nurbs()', lambda: g.as_nurbs()), ('[0]', lambda: g[0])]
+        for what, fn in derived:
+            h = fn()
+            if norm(h.support) != box:
+                extra = ''
+                if what.startswith('translate'):
+                    hb = h.bounding_box(grid=4)
+                    extra = '; bounding box %s is not the translated bounding box %s of the restricted patch' % (
+                        [[round(float(t), 6) for t in b] for b in hb], [[round(float(b[0]) + o, 6), round(float(b[1]) + o, 6)] for b, o in zip(bb, (1.0, 0.0))])
+                ctx.violation('derived-drops-support', '%s with support restricted to %s: .%s is defined on the full domain %s again%s'
+                              % (name, box, what, norm(h.support), extra), {'construct': 'g = %s; g.support = %s; g.%s' % (name, box, what)}, True)
 
 
 def describe(m):
@@ -988,8 +1022,6 @@ def oracle_unary(name, f, rng):
         g = geometry.NurbsFunc(f.kvs, C.copy(), W.copy())
         return same(g, lambda v: v, 'NurbsFunc(kvs, *coeffs_weights())')
     if name == 'boundary':
-        if n == 1 and (nb or (len(vs) == 1 and vs[0] != 1)):
-            return None         # known finding boundary-curve-endpoint (reported by known_probes)
         for axis in range(n):
             for side in (0, 1):
                 g = f.boundary((axis, side))
@@ -1075,8 +1107,6 @@ def oracle_checks(ctx, funcs):
         n = len(f.kvs)
         pts = [tuple(rand_coord(rng, f.kvs[n - 1 - e], 1)[0] for e in range(n)) for _ in range(2)]
         grid = tuple(np.array(rand_coord(rng, f.kvs[k], 2 if (k == 0 or n < 3) else 1)) for k in range(n))
-        if (not is_nurbs(f)) and f.coeffs.shape[n:] == (1,):
-            f = bspline.BSplineFunc(f.kvs, f.coeffs[..., 0])      # (the (1,)-vector Hessian is reported separately)
         d = oracle_routes(f, pts, grid)
         count += 1
         if d:
@@ -1119,8 +1149,6 @@ def oracle_checks(ctx, funcs):
         g1 = rand_func(rng, s1, str(rng.choice(['bsp', 'nurbs'])), (m,) if rng.integers(0, 3) else ())
         g2 = rand_func(rng, s2, str(rng.choice(['bsp', 'nurbs'])), (m,) if rng.integers(0, 3) else ())
         for name in ('outer_sum', 'outer_product', 'tensor_product'):
-            if name != 'tensor_product' and scalar_vector_bsp(g1, g2):
-                continue
             try:
                 d = oracle_operation(('op:' + name, g1, g2), rng)
             except Exception as ex:
